@@ -163,7 +163,7 @@ pub(crate) fn lex_between<'a>(
             break;
         };
         if first_char.is_whitespace() {
-            offset += 1;
+            offset += first_char.len_utf8();
             continue;
         }
 
@@ -359,26 +359,28 @@ pub(crate) fn lex_between<'a>(
             offset += variable_match.end();
         } else {
             let (line_number, column) = lp.from_offset(offset);
+            // The unrecognized character may be more than one byte.
+            let char_len = first_char.len_utf8();
 
             errors.push(ParseError::Invalid {
                 position: Position {
                     start_offset: offset,
-                    end_offset: offset + 1,
+                    end_offset: offset + char_len,
                     line_number: line_number.as_usize(),
                     end_line_number: line_number.as_usize(),
                     column,
-                    end_column: column + 1,
+                    end_column: column + char_len,
                     path: Rc::clone(&vfs_path.path),
                     vfs_path: vfs_path.clone(),
                 },
                 message: ErrorMessage(vec![
                     msgtext!("Unrecognized syntax "),
-                    msgcode!("{}", &s[0..1]),
+                    msgcode!("{}", &s[0..char_len]),
                 ]),
                 notes: vec![],
             });
 
-            offset += 1;
+            offset += char_len;
         }
     }
 
